@@ -125,17 +125,67 @@ func ruleFitComparators(c *Ctx) {
 			}
 		}
 	}
-	c.Check(ok, rule, "compareRuleFit", "orders by (more peers, fewer role mismatches, higher isolation score), each key compared both ways with opposite signs", P.pos(cmp.Pos()), detail)
-	// default 0
-	def := false
-	for _, b := range cmp.Blocks {
-		if r, isR := b.Instrs[len(b.Instrs)-1].(*ssa.Return); isR {
-			if k, isC := constInt(retVal(r, 0)); isC && k == 0 {
-				def = true
+	// decided by evaluating the comparator under every ordering of its three keys (ordeval.go): whatever the
+	// shape — a switch of comparisons, a helper whose result is negated, early returns — the table that must
+	// come out is: the first key that differs decides; more peers / fewer mismatches / higher isolation wins
+	keys := []string{"len(Peers)", "len(PeersWithDifferentRole)", "IsolationScore"}
+	better := map[string]int{"len(Peers)": 1, "len(PeersWithDifferentRole)": -1, "IsolationScore": 1} // sign of (a − b) that is good for a
+	sideOf := func(v ssa.Value) int {
+		switch {
+		case len(cmp.Params) == 2 && derivesFrom(v, same(cmp.Params[0]), 5):
+			return 0
+		case len(cmp.Params) == 2 && derivesFrom(v, same(cmp.Params[1]), 5):
+			return 1
+		}
+		return -1
+	}
+	tableOK, tableDetail := true, ""
+	var ords [3]int
+	var rec func(i int)
+	rec = func(i int) {
+		if i < 3 {
+			for _, o := range []int{-1, 0, 1} {
+				ords[i] = o
+				rec(i + 1)
+			}
+			return
+		}
+		want := 0
+		for k := 0; k < 3; k++ {
+			if ords[k] != 0 {
+				want = ords[k] * better[keys[k]]
+				break
 			}
 		}
+		cur := ords
+		got, okE := ordEval(cmp, nil, ordAssume{cmp: func(x, y ssa.Value) (int, bool) {
+			kx, ky := keyOf(x), keyOf(y)
+			if kx == "" || kx != ky {
+				return 0, false
+			}
+			sx, sy := sideOf(x), sideOf(y)
+			for k, name := range keys {
+				if name == kx {
+					if sx == 0 && sy == 1 {
+						return cur[k], true
+					}
+					if sx == 1 && sy == 0 {
+						return -cur[k], true
+					}
+				}
+			}
+			return 0, false
+		}}, 3)
+		if !okE || got.kind != 'i' || int(got.i) != want {
+			if tableOK {
+				tableDetail = fmt.Sprintf("with (peers, mismatches, isolation) of a vs b ordered %v the result is %v (evaluated: %v), want %d", cur, got.i, okE, want)
+			}
+			tableOK = false
+		}
 	}
-	c.Check(def, rule, "compareRuleFit default", "equal keys compare as 0", P.pos(cmp.Pos()), "")
+	rec(0)
+	_ = ok
+	c.Check(tableOK, rule, "compareRuleFit", "orders by (more peers, fewer role mismatches, higher isolation score): all 27 orderings of the three keys give the documented sign, equal keys give 0", P.pos(cmp.Pos()), tableDetail+" — chain: "+detail)
 
 	// CompareRegionFit: rule fits in index order (first difference decides), then fewer orphans
 	crf := P.Func(plc, "CompareRegionFit")
@@ -160,34 +210,37 @@ func ruleFitComparators(c *Ctx) {
 	}
 	found, _ := guardControlsReturn(crf, relMatcher("!=", resultOfCall(F(cmp)), isConstInt(0)), func(*ssa.Return) bool { return true })
 	c.Check(okLoop && retCmp && found, rule, "CompareRegionFit rule loop", "rule fits are compared in order and the first difference is returned", P.pos(crf.Pos()), "")
-	var tail *ssa.BasicBlock
-	for _, b := range crf.Blocks {
-		if iff, isIf := b.Instrs[len(b.Instrs)-1].(*ssa.If); isIf {
-			if bo, isB := iff.Cond.(*ssa.BinOp); isB {
-				if cl, isC := strip(bo.X).(*ssa.Call); isC {
-					if bi, isBi := cl.Call.Value.(*ssa.Builtin); isBi && bi.Name() == "len" && isLoadOf(cl.Call.Args[0], fOrph) && tail == nil {
-						tail = b
-					}
+	// the tail, evaluated with no rule fits to compare: fewer orphans wins
+	fFits := P.Field(plc, "RegionFit", "RuleFits")
+	okTail, tailDetail := true, ""
+	for _, o := range []int{-1, 0, 1} {
+		ord := o
+		got, okE := ordEval(crf, nil, ordAssume{
+			cmp: func(x, y ssa.Value) (int, bool) {
+				isOrph := func(v ssa.Value) bool { return lenOf(loadOfField(fOrph))(v) }
+				if !isOrph(x) || !isOrph(y) || len(crf.Params) != 2 {
+					return 0, false
 				}
-			}
+				if derivesFrom(x, same(crf.Params[0]), 5) && derivesFrom(y, same(crf.Params[1]), 5) {
+					return ord, true
+				}
+				if derivesFrom(x, same(crf.Params[1]), 5) && derivesFrom(y, same(crf.Params[0]), 5) {
+					return -ord, true
+				}
+				return 0, false
+			},
+			known: func(v ssa.Value) (int64, bool) {
+				if lenOf(loadOfField(fFits))(v) {
+					return 0, true
+				}
+				return 0, false
+			}}, 3)
+		if !okE || got.kind != 'i' || int(got.i) != -ord {
+			okTail = false
+			tailDetail = fmt.Sprintf("with a's orphans vs b's ordered %d the result is %d (evaluated: %v), want %d", ord, got.i, okE, -ord)
 		}
 	}
-	okTail := false
-	if tail != nil {
-		ch := comparatorChain(crf, func(v ssa.Value) string {
-			if cl, isC := strip(v).(*ssa.Call); isC {
-				if bi, isBi := cl.Call.Value.(*ssa.Builtin); isBi && bi.Name() == "len" && isLoadOf(cl.Call.Args[0], fOrph) {
-					return "len(OrphanPeers)"
-				}
-			}
-			return ""
-		}, tail)
-		if len(ch) == 2 {
-			s := map[token.Token]int64{ch[0].Op: ch[0].Ret, ch[1].Op: ch[1].Ret}
-			okTail = s[token.LSS] == 1 && s[token.GTR] == -1
-		}
-	}
-	c.Check(okTail, rule, "CompareRegionFit orphans", "finally fewer orphans is better (< → 1, > → −1)", P.pos(crf.Pos()), "")
+	c.Check(okTail, rule, "CompareRegionFit orphans", "finally fewer orphans is better (< → 1, > → −1, = → 0)", P.pos(crf.Pos()), tailDetail)
 }
 
 func ruleFitSearchDiscipline(c *Ctx) {
@@ -250,16 +303,30 @@ func ruleFitSearchDiscipline(c *Ctx) {
 			return false
 		}
 		b, isB := cl.Call.Value.(*ssa.Builtin)
-		return isB && b.Name() == "append" && isLoadOf(cl.Call.Args[0], orph)
+		// the list may be built in the field itself or in a local that is stored into it afterwards
+		return isB && b.Name() == "append" && types.Identical(cl.Type(), orph.Type())
 	}, []Ev{&guardEv{name: "!p.selected", match: func(cond ssa.Value, pos bool) bool { return !pos && isLoadOf(cond, sel) }}}, all, "a peer is listed as orphan only if no rule selected it")
-	okReset := false
+	isEmptied := func(v ssa.Value) bool {
+		sl, ok := v.(*ssa.Slice)
+		if !ok {
+			return false
+		}
+		k, isC := constInt(sl.High)
+		return isC && k == 0
+	}
+	// either the field itself is emptied (x = x[:0]) before the appends, or what is stored into it was
+	// built from an emptied list in a local
+	allFromEmpty, someEmptied, nSt := true, false, 0
 	for _, st := range storesToField(uo, orph) {
-		if sl, ok := st.Val.(*ssa.Slice); ok {
-			if k, isC := constInt(sl.High); isC && k == 0 {
-				okReset = true
-			}
+		nSt++
+		if isEmptied(st.Val) {
+			someEmptied = true
+		}
+		if !derivesFrom(st.Val, isEmptied, 8) {
+			allFromEmpty = false
 		}
 	}
+	okReset := nSt > 0 && (someEmptied || allFromEmpty)
 	c.Check(okReset, rule, "orphan list in "+fnName(uo), "rebuilt from empty each time", P.pos(uo.Pos()), "")
 	// a better fit for rule i invalidates the fits of all later rules before they are searched again
 	cb := P.Method(plc, "fitWorker", "compareBest")
@@ -395,15 +462,8 @@ func ruleSatisfiedAtoms(c *Ctx) {
 		})
 	}
 	c.Check(okLoop, rule, "rule loop in "+fnName(gf), "every rule fit must be satisfied", P.pos(gf.Pos()), "")
-	okRet := false
-	for _, b := range gf.Blocks {
-		if r, ok := b.Instrs[len(b.Instrs)-1].(*ssa.Return); ok {
-			if bo, ok := retVal(r, 0).(*ssa.BinOp); ok && bo.Op == token.EQL && lenOf(loadOfField(orph))(bo.X) && isConstInt(0)(bo.Y) {
-				okRet = true
-			}
-		}
-	}
-	c.Check(okRet, rule, "final result of "+fnName(gf), "… and no orphan peer remains", P.pos(gf.Pos()), "")
+	// … and no orphan peer remains: whatever the shape (return len(o) == 0, or if len(o) > 0 { return false }; return true)
+	c.trueOnlyIf(rule, gf, []namedAtom{{"no orphan peer remains", relMatcher("== <=", lenOf(loadOfField(orph)), isConstInt(0))}})
 }
 
 // constsOfType: package-level constants of a named string type.
@@ -505,23 +565,32 @@ func ruleLabelMatchAtoms(c *Ctx) {
 		}
 		if k, isC := constInt(retVal(r, 0)); isC && k == -1 {
 			n++
-			if loopsContain(cl, b) {
+			if loopsContain(cl, b) || leftFromLoopBody(cl, b) {
 				okRet = false
 			}
 		}
 	}
 	c.Check(okRet && n > 0, rule, "\"same location\" answer of "+fnName(cl), "-1 is returned only after every label level was looked at (an unset level is skipped)", P.pos(cl.Pos()), "")
-	ne := guardRel("both stores carry the level's label", "!=", resultOfCall(getLV), isConstStr(""))
-	_ = ne
-	nonEmpty := 0
-	for _, b := range cl.Blocks {
-		for _, ins := range b.Instrs {
-			if bo, ok := ins.(*ssa.BinOp); ok && bo.Op == token.NEQ && resultOfCall(getLV)(bo.X) && isConstStr("")(bo.Y) {
-				nonEmpty++
+	// a level tells the stores apart only when both carry a value for it: every "different at level i" answer
+	// follows value != "" for this store's and for the other store's label (either as a conjunct or as an early continue)
+	valueOf := func(side int) valPred {
+		return func(v ssa.Value) bool {
+			cl2, _ := callOf(v)
+			if cl2 == nil || !getLV.Match(cl2.Common()) || len(cl2.Call.Args) == 0 || len(cl.Params) < 2 {
+				return false
 			}
+			return strip(cl2.Call.Args[0]) == ssa.Value(cl.Params[side])
 		}
 	}
-	c.Check(nonEmpty >= 2, rule, "unset labels in "+fnName(cl), "both values are tested for being set before they are compared", P.pos(cl.Pos()), fmt.Sprint(nonEmpty))
+	c.need(rule, cl, "\"different at this level\" answer", func(x ssa.Instruction) bool {
+		r, ok := x.(*ssa.Return)
+		if !ok || len(r.Results) != 1 {
+			return false
+		}
+		k, isC := constInt(retVal(r, 0))
+		return !(isC && k == -1)
+	}, []Ev{guardRel("this store's value is set", "!=", valueOf(0), isConstStr("")), guardRel("the other store's value is set", "!=", valueOf(1), isConstStr(""))}, all,
+		"both values are tested for being set before they are compared")
 }
 
 // ruleFitInputs: what the search works on. Every peer of the region becomes a
@@ -536,6 +605,16 @@ func ruleFitInputs(c *Ctx) {
 	getPeers := F(P.Method("server/core", "RegionInfo", "GetPeers"))
 	c.saw(fnName(nw))
 	isAppend := func(x ssa.Instruction) bool {
+		// appended to the candidate list, or stored into its slot (indexed fill of a list made at full length)
+		if st, ok := x.(*ssa.Store); ok {
+			if ia, isIdx := st.Addr.(*ssa.IndexAddr); isIdx {
+				if nn := namedOf(st.Val.Type()); nn != nil && nn.Obj().Name() == "fitPeer" {
+					_, isSlice := ia.X.Type().Underlying().(*types.Slice)
+					return isSlice
+				}
+			}
+			return false
+		}
 		cl, ok := x.(*ssa.Call)
 		if !ok {
 			return false
